@@ -18,7 +18,7 @@ ANCHORS = [
     "api.py:_prepare", "api.py:upgrade_prefix_map", "api.py:load_prefix_map", "api.py:load_extended_prefix_map",
     "api.py:load_jsonld_context",
 ]
-DECIDING = [
+DECIDING = ["sibling-unaffected", 
     "loader:from_prefix_map", "loader:from_priority_prefix_map", "loader:from_reverse_prefix_map",
     "loader:from_extended_prefix_map", "loader:from_jsonld", "loader:from_rdflib", "upgrade_prefix_map", "file-vs-object",
 ]
@@ -77,6 +77,34 @@ def with_options(loader, obj, rng, pairs=()):
         probe.S.counters["wl:loads-with-options:" + "+".join(sorted(kw))] += 1
         if o[0] == "ret" and pairs and kw.get("strict", True):
             exercise(o[1], list(pairs)[:6])
+
+
+def sibling_leg(loader, obj, tag, rng):
+    """Two converters loaded from the very same plain-data object (dictionaries, lists, strings), one of them extended
+    by a merge: the other one, and a third load of the same object, must be what the data denotes - a loader that keeps
+    the caller's lists inside its records lets them all grow together.  (Not for inputs made of Record objects: a
+    converter holds the Record objects it is given, that sharing is the caller's.)"""
+    a, b = call(loader, obj), call(loader, obj)
+    if a[0] != "ret" or b[0] != "ret":
+        return
+    before = spec.snapshot(b[1])
+    recs = spec.snapshot(a[1])
+    if not recs:
+        return
+    r0 = rng.choice(recs)
+    call(a[1].add_prefix, r0.prefix, r0.uri_prefix, ["zzmerged"], ["http://zz.merged/"], merge=True)
+    probe.evaluated("sibling-unaffected")
+    after = spec.snapshot(b[1])
+    c3 = call(loader, obj)
+    third = spec.snapshot(c3[1]) if c3[0] == "ret" else c3
+    if after != before or third != before:
+        violation(["C13"], "sibling-unaffected", "converters-loaded-from-one-object-share-state", loader=tag, input=obj,
+                  sibling_before=[spec.rec_dict(r) for r in before], sibling_after=[spec.rec_dict(r) for r in after],
+                  third_load=[spec.rec_dict(r) for r in third] if isinstance(third, tuple) else third)
+    for q in ("zzmerged:1", r0.prefix + ":1"):
+        call(b[1].expand, q)
+    call(b[1].compress, "http://zz.merged/1")
+    probe.S.counters["wl:sibling-legs"] += 1
 
 
 def exercise(c, pairs):
@@ -156,6 +184,8 @@ def run_case(ctx, g, rng):
         if o[0] == "ret":
             exercise(o[1], [(p, u) for p, us in ppm.items() for u in us])
         with_options(C.from_priority_prefix_map, ppm, rng, [(p, u) for p, us in ppm.items() for u in us])
+        if not dup:
+            sibling_leg(C.from_priority_prefix_map, ppm, "priority_prefix_map", rng)
         multi = any(len(us) > 1 for us in ppm.values())
         probe.note_key(f"ppm:dup{int(dup)}:multi{int(multi)}:{o[0]}", multi or dup)
         S.counters["wl:priority_map"] += 1
@@ -189,6 +219,7 @@ def run_case(ctx, g, rng):
         loader = rng.choice([C.from_extended_prefix_map, api.load_extended_prefix_map])
         o = three_forms(ctx, loader, epm, "extended_prefix_map")
         with_options(C.from_extended_prefix_map, epm, rng)
+        sibling_leg(C.from_extended_prefix_map, epm, "extended_prefix_map", rng)
         call(C.from_extended_prefix_map, [gen.mk_record(api, r) for r in recs])
         # "an iterable of records or dictionaries": also handed over as one-shot iterables
         shape = rng.choice(["generator", "iterator", "map", "generator-of-records", "tuple"])
